@@ -10,8 +10,14 @@ from harness.adapters import tree as T
 PH_INT, PH_FLOAT, PH_STR = T.PLACEHOLDERS
 STR_POOL = ["alpha", "P_none", "x y", "é-ü", "0", "", "true", "Nonesuch", "M OGI", "a.b", "#c",
             "k: v", " lead", "site", "component", "recent", "4.0", "two  spaces", "q\"uote", "back\\slash"]
-NAME_POOL = ["P_none", "P_OGI", "P air", "prog-é", "Alpha", "B2", "nul", "nanx", "No ne", "p.q"]
-METHOD_POOL = ["OGI", "OGI_FU", "Air craft", "M-é", "fixed", "m1", "NANO", "none_", "x.y"]
+# names: underscores, digits, prefixes of each other, names that look like keys / levels / markers /
+# other types (LESSONS 3).  None of them is reserved (none / null / nan) or a type placeholder.
+NAME_POOL = ["P_none", "P_OGI", "P air", "prog-é", "Alpha", "B2", "nul", "nanx", "No ne", "p.q",
+             "P", "P_", "P_O", "P_OGI_FU", "2", "10", "1.0", "true", "programs", "methods", "outputs",
+             "default_parameters", "version", "kept", "Logs", "NA", "_", "p_default.yml"]
+METHOD_POOL = ["OGI", "OGI_FU", "Air craft", "M-é", "fixed", "m1", "NANO", "none_", "x.y",
+               "O", "OG", "OGI_", "OGI_FU_2", "7", "0.5", "false", "methods", "method_labels",
+               "quantification_parameters", "sensor", "kept", "NA", "mobile", "m_default_mobile.yml"]
 RESERVED_SAMPLES = ["none", "None", "NONE", "null", "Null", "nan", "NaN", "NAN", "nOnE"]
 OMIT = {
     "simulation_settings": ["programs"],
